@@ -364,3 +364,17 @@ def compare(got, expected, te):
     if any(a.startswith("?") or "?" in a for a in got.atoms()):
         return "UNKNOWN"
     return "DIFFERENT"
+
+
+INTERPRETED = ("clamp(", "clip(", "relu(", "sigmoid(", "tanh(", "sign(", "round(", "floor(", "ceil(", "exp(", "log(", "sqrt(", "nan_to_num(", "abs(")
+
+
+def structural_difference(got, expected):
+    """True when two unequal terms are built from the SAME atoms (different polynomial), or differ only by atoms that are interpreted
+    non-identity functions (clamp, relu, ...): then the difference is arithmetic.  When one side mentions atoms the other does not
+    (another spelling of an index, `x.ndim` for `len(x.shape)`, another variable) the normal forms cannot tell a synonym from a defect."""
+    a, b = got.atoms(), expected.atoms()
+    if a == b:
+        return True
+    extra = a ^ b
+    return all(any(x.startswith(p) or ("1*" + p) in x for p in INTERPRETED) for x in extra)
